@@ -227,8 +227,12 @@ pub fn draw_spelling(rng: &mut Rng, from: &str, target: &str, is_data: bool, std
     let ext = if is_data { "bin" } else { "asm" };
     // `clean` cases use only spellings the property requires to work, so
     // that deep graphs (chains, diamonds, cycles, #once) are actually expanded
-    let style = if clean { *rng.pick(&[0usize, 0, 0, 0, 30, 38, 46, 54, 60, 74, 100, 101, 102]) } else { rng.below(104) };
+    let style = if clean { *rng.pick(&[0usize, 0, 0, 0, 30, 38, 46, 54, 60, 74, 100, 101, 102]) } else { rng.below(108) };
     match style {
+        104 => format!("<std>//{}", target),
+        105 => format!("<std>/\\{}", target),
+        106 => format!("<std>///{}", target),
+        107 => format!("<std>/./{}", target),
         100 => format!(".//{}", rel),
         101 => format!("././/{}", rel),
         102 => rel.replacen('/', "//", 1),
